@@ -16,6 +16,8 @@ def gen_program(rng, maxlen=40, maxmode=8):
     n = rng.randint(0, maxlen) if rng.random() < 0.9 else rng.randint(0, 4)
     nm = rng.randint(1, maxmode)
     pool = MODEPOOL if rng.random() < 0.6 else list(range(len(MODEPOOL)))
+    if rng.random() < 0.15:
+        pool = [-1, 0, -2, 1, 2, -7, 3, 10, -10, 4, 5]       # any integer is a mode number, negative ones included
     lines = ["name g", "version 1.0", ""]
     for i in range(n):
         k = rng.choice([1, 1, 1, 2, 2, 3])
@@ -29,13 +31,13 @@ def gen_program(rng, maxlen=40, maxmode=8):
         else:
             for _ in range(rng.randint(0, 2)):
                 if rng.random() < 0.35:
-                    regs = [pool[x] for x in rng.sample(range(nm + 2), rng.randint(1, 2))]
+                    regs = [abs(pool[x]) for x in rng.sample(range(nm + 2), rng.randint(1, 2))]
                     args.append(" + ".join("q%d * %d" % (q, rng.randint(1, 3)) for q in regs))
                 else:
                     args.append(rng.choice(["0.5", "1", "2.5e-1", "pi"]))
             if rng.random() < 0.3:
                 if rng.random() < 0.5:
-                    args.append("phi=q%d / 2" % pool[rng.randrange(nm + 2)])
+                    args.append("phi=q%d / 2" % abs(pool[rng.randrange(nm + 2)]))
                 else:
                     args.append("phi=%s" % rng.choice(["0.1", "[1, 2]"]))
             argtext = "(" + ", ".join(args) + ")"
@@ -65,7 +67,7 @@ def wires_from_text(text):
         if " | " not in ln:
             continue
         left, right = ln.rsplit(" | ", 1)
-        out.append([int(x) for x in re.findall(r"\d+", right)] + [int(x) for x in re.findall(r"\bq(\d+)\b", left)])
+        out.append([int(x) for x in re.findall(r"-?\d+", right)] + [int(x) for x in re.findall(r"\bq(\d+)\b", left)])
     return out
 
 
@@ -83,11 +85,16 @@ def check_graph(model, impl, text):
     for i, o in enumerate(p.operations):
         if sorted(set(wires_of(o))) != sorted(set(wires[i])):
             return "operation %d acts on modes / depends on registers %s, the script says %s" % (i, sorted(set(wires_of(o))), sorted(set(wires[i])))
-    out = model.ask("DIGRAPH", ";".join(",".join(map(str, w)) for w in wires))
+    # the model's wires are natural numbers: integers are sent through the injection w -> 2w (w >= 0), -2w - 1 (w < 0); only the
+    # equality of wires matters for the graph
+    out = model.ask("DIGRAPH", ";".join(",".join(str(2 * x if x >= 0 else -2 * x - 1) for x in w) for w in wires))
     _, ns, _, es = (out.split(" ") + ["", ""])[:4] if out.startswith("N") else (None, None, None, None)
     mnodes = set(int(x) for x in ns.split(",") if x)
     medges = set(tuple(int(y) for y in x.split(">")) for x in es.split(",") if x)
-    G = to_DiGraph(p)
+    try:
+        G = to_DiGraph(p)
+    except Exception as e:  # noqa: BLE001
+        return "to_DiGraph raises %s: %s" % (type(e).__name__, str(e)[:100])
     n = len(ops)
     if set(G.nodes) != mnodes or G.number_of_nodes() != n:
         return "node set %s, expected exactly one node per operation %s" % (sorted(G.nodes), sorted(mnodes))
